@@ -476,7 +476,8 @@ def generate_fold(types, exp):
                 c = cs[0]
                 if not c["ignored"]:
                     j += 1
-                if c["ignored"] or c["cont"] in ("Simple", "Box"):
+                if c["ignored"] or c["cont"] in ("Simple", "Box") or re.match(r"^self\.\w+$", expr):
+                    # (a child handed over unfolded stays as written: the contract then fails, as it should)
                     pass
                 elif c["cont"] == "Option":
                     rx = r"^self\." + fname + r"\s*\.map\(\|x\|\s*f\.(\w+)\(x\)\)\s*\.transpose\(\)\?$"
